@@ -4,7 +4,8 @@
 // operations and SIGUSR1 storms (handler without SA_RESTART) aimed at threads that may be parked in sem_wait /
 // sem_timedwait.  After every round the main thread drains the semaphore with polling waits.
 // usage: c08_sema <seed> <rounds> <perturb_permille>
-// output: "S <round> <v> <nthreads> <drained> <off_sema> <rescues>" lines, then the recorder dump (E lines; obj = round;
+// output: "S <round> <v> <nthreads> <drained> <off_sema> <rescues>" lines (or a final "H <round> <v> <nthreads> <rescues> <stuck>" when
+//         waiters stay parked although > 5000 rescue signals arrived over > 15 s), then the recorder dump (E lines; obj = round;
 //         offset 0 = dsema_value, offset <off_sema> = dsema_sema).
 // harness events: DVU_CALL a = 0 (signal) | 1 (wait), b = timeout argument;
 //                 DVU_RET  a = return value, b = the library's clock (same encoding as the timeout) after the return
@@ -12,6 +13,7 @@
 #include <signal.h>
 #include <errno.h>
 #include <stddef.h>
+#include <time.h>
 #include "dv_record.h"
 
 #define MAXT 8
@@ -113,15 +115,24 @@ int main(int argc, char **argv) {
 		pthread_barrier_wait(&bar);
 		// signal storm + rescue: when nothing has moved for longer than the longest timed wait, the remaining threads
 		// are parked in waits without timeout; feed them (ordinary recorded signal calls by the main thread)
-		long last = -1; int idle_ticks = 0, rescues = 0, stalled = 0;
+		long last = -1; int idle_ticks = 0, rescues = 0, stalled = 0; struct timespec stall_t0 = {0, 0};
 		while (atomic_load(&done_threads) < n) {
 			uint64_t x = rnd(&r);
 			usleep((useconds_t)(100 + x % 200));
 			if (x % 3 == 0) pthread_kill(th[(x >> 8) % (unsigned)n], SIGUSR1);
 			long p = atomic_load(&progress);
 			if (p != last) { last = p; idle_ticks = 0; } else idle_ticks++;
-			if (idle_ticks > 40) stalled = 1;
+			if (idle_ticks > 40 && !stalled) { stalled = 1; clock_gettime(CLOCK_MONOTONIC, &stall_t0); }
 			if (stalled) { do_signal(cur, i); rescues++; }
+			if (stalled && rescues > 5000) {
+				// far more permits have been supplied than all threads together can consume (MAXT * MAXOPS), and
+				// waiters are still parked: report the round as hung instead of waiting forever
+				struct timespec t1; clock_gettime(CLOCK_MONOTONIC, &t1);
+				if (t1.tv_sec - stall_t0.tv_sec > 15) {
+					printf("H %d %ld %d %d %d\n", i, v, n, rescues, n - atomic_load(&done_threads));
+					dv_dump(stdout); fflush(stdout); _exit(0);
+				}
+			}
 		}
 		for (int k = 0; k < n; k++) pthread_join(th[k], NULL);
 		pthread_barrier_destroy(&bar);
